@@ -91,7 +91,9 @@ EXTRA_IMPORTS = ["Okane.Props.C05Text", "Okane.Lemmas.PrintersAgreeC05", "Okane.
 ASCII_WORD = "abcdefghijklmnopqrstuvwxyzABCDEFGHIJKLMNOPQRSTUVWXYZ"
 UNI_WORDS = ["日本", "語", "食費", "現金", "Bücher", "café", "Ελλάς", "Жя", "한글", "naïve", "€uro", "ｱｲ", "🙂", "—", "½"]
 ACCOUNT_ROOTS = ["Assets", "Expenses", "Liabilities", "Income", "Equity", "資産", "Aktiva"]
-COMMODITIES = ["USD", "EUR", "JPY", "CHF", "$", "円", "€", "£", "AAPL", "株", "%", "h", "Ｆ", "\"X\"", "_a#"]
+COMMODITIES = ["USD", "EUR", "JPY", "CHF", "$", "円", "€", "£", "AAPL", "株", "%", "h", "Ｆ", "\"X\"", "_a#",
+               # digits and blanks OUTSIDE ASCII are ordinary commodity characters (the documented exclusion list is ASCII)
+               "Ｆ１", "m\u0662"]
 PREFIXES = ";#%|*"
 
 
@@ -803,6 +805,24 @@ def run(chk):
     for _ in range(n_gram):
         g = Gen(rng, flags)
         cases.append(("grammar", g.ledger(), g.features))
+    # 2b. long files (5-25 KB: beyond any read buffer of the command-line glue) with multi-byte names throughout
+    for _ in range(12 if chk.tier == "quick" else 150):
+        parts = []
+        size = 0
+        want = rng.choice([4200, 8300, 12400, 16500, 25000])
+        pad = "; " + "".join(rng.choice("資産銀行みずほ食費é€円日本語✓") for _ in range(rng.randint(1, 40))) + "\n\n"
+        parts.append(pad)
+        feats = {"long-file"}
+        while size < want:
+            g = Gen(rng, flags)
+            t = g.ledger()
+            if not t.endswith("\n"):
+                t += "\n"
+            parts.append(t)
+            parts.append("; 備考 %s\n\n" % "".join(rng.choice("あいうえお口座残高") for _ in range(rng.randint(0, 9))))
+            size += len((parts[-2] + parts[-1]).encode("utf-8"))
+            feats |= g.features
+        cases.append(("grammar", "".join(parts), feats))
     # 3. malformed
     n_mal = len(cases) // 3
     base = [c for c in cases if c[0] == "grammar"]
@@ -874,7 +894,10 @@ def run(chk):
             fails.append(("parse_ledger panicked", dict(observed=iparse[i])))
         # ---- oracles (b), (c): only for texts that parse
         if accepted:
-            if f1[i] is None:
+            if ifmt[i].startswith("cmddiff"):
+                fails.append(("`okane format FILE` (cmd::FormatCmd::run on a file holding the text) does not print what the formatter gives for the text",
+                              dict(observed=ifmt[i][:4000])))
+            elif f1[i] is None:
                 fails.append(("text parses but okane format fails on it (%s)" % ifmt[i], dict(observed=ifmt[i])))
             else:
                 m1, _ = meaning(iparse[i])
